@@ -5,6 +5,9 @@ import SciVerif.Lemmas.C10i
 import SciVerif.Lemmas.C10j
 import SciVerif.Lemmas.C10k
 import SciVerif.Lemmas.C10n
+import SciVerif.Lemmas.C10p
+import SciVerif.Lemmas.C10q
+import SciVerif.Lemmas.C10r
 import SciVerif.Facts.C10Table
 
 /-!
@@ -20,7 +23,10 @@ What is proved, and at which level:
   the formula, as an ordered dict (`C10_counts_partial`).  The remaining link of the full
   statement `C10_counts_statement` — that `preprocess` + tokenizer + the three solver steps turn
   the *text* `render f` into that evaluation — is the executable model `substanceOf`; it is
-  validated against the real regexes/solver by correspondence on every run, not proved.
+  validated against the real regexes/solver by correspondence on every run; inside the model it is
+  PROVED for the explicit notation, for parenthesis-free formulas and for sequences of
+  parenthesis-free units and (non-nested) parenthesised groups with counts
+  (`C10_counts_text_…_partial`), not for nested groups in the short notation.
 * species data — for every isotope of every element of the regenerated table and every charge
   number, `get_isotope` returns `N = A − Z`, `e = Z + q`, `mass = M + q·mₑ`; natural = abundance
   weighted mean; most abundant = first maximum.  Generic in the table (any well-formed table),
@@ -65,8 +71,10 @@ theorem C10_solver_partial (valid : Str → Bool) (f : F) (hwf : f.wf = true)
 
 /-- The remaining link of the text-level statement.  PROVED for parenthesis-free formulas
     (`C10_preprocess_partial`, including the order-independence of the pass-1 fixed point over
-    merged capital runs) and for explicit text (`preprocess_explicit`).  NOT proved: formulas with
-    parenthesised groups in the short notation — the rewriting of `X (`, `)n X`, `)n (` by passes
+    merged capital runs), for sequences of parenthesis-free units and parenthesised
+    parenthesis-free groups with optional counts (`C10_preprocess_units_partial`; special cases
+    `C10_preprocess_group_partial`, `C10_preprocess_chain_group_partial`) and for explicit text
+    (`preprocess_explicit`).  NOT proved: NESTED groups in the short notation — there the rewriting of `X (`, `)n X`, `)n (` by passes
     3 and 4 (their look-behind run `[^*+(\s]*` / look-ahead `[^+*)\s]*` crosses item boundaries)
     and the interplay of passes 1 and 2 with text inside and next to groups — and a trailing
     explicit ` * n` mixed into the short notation.  Evaluated by the driver on every generated
@@ -136,6 +144,125 @@ theorem C10_counts_text_flat_partial (valid : Str → Bool) (f : F) (hf : f.flat
   simp only [substanceOf, he, solveStr, preprocess_flat f hf hsh]
   rw [(solve_explicit_aux valid f (flat_factorOK f hf) hok).2 _ (by omega), C10_counts_partial]
   simp
+
+/-- A parenthesis ends a match of the species pattern of `preprocess` exactly as the end of the
+    text does: for ANY text `w` and any continuation `s`, the greedy match at the head of `w(s` /
+    `w)s` is the match at the head of `w` with the parenthesis and `s` appended to the remainder.
+    (Basis of all results about groups: pass 1 and pass 2 never look across a parenthesis.) -/
+theorem C10_species_pattern_stops_at_paren (w s : Str) (e : Char) (he : e = '(' ∨ e = ')') :
+    matchP (w ++ e :: s) =
+      (matchP w).map fun q => (q.1, q.2.1, q.2.2.1, q.2.2.2.1, q.2.2.2.2 ++ e :: s) :=
+  matchP_mark w s e (Mark.endc he)
+
+/-- … hence one substitution of pass 1 (`re.sub(…, count=1)`) on `w` followed by a parenthesis acts
+    inside `w` if it can, and otherwise behind the parenthesis — for ANY text `w`. -/
+theorem C10_pass1_step_stops_at_paren (w s : Str) (e : Char) (he : e = '(' ∨ e = ')') :
+    pass1Step (w ++ e :: s) =
+      match pass1Step w with
+      | some x => some (x ++ e :: s)
+      | none => (pass1Step (e :: s)).map (w ++ ·) :=
+  pass1Step_mark w s e he
+
+/-- Further proved fragment of `C10_preprocess_statement`, SHORT notation WITH parentheses: one
+    parenthesised group without or with a count — `(OH)2`, `(CH3)3`, `(C2H5 O)12`, `(Na{23} + Cl)` —
+    whose inside is any parenthesis-free formula (species, counts, juxtaposition with any number of
+    blanks incl. none, explicit ` + `).  All four passes: pass 1 reaches the fixed point of the
+    inside without touching the parentheses, pass 2 rewrites the counts inside and leaves the
+    group count, pass 3 leaves the leading `(`, pass 4 rewrites `)n` into `) * n`.
+    Still missing for the full statement: several items/groups next to each other (`X (`, `)n X`,
+    `)n (` in passes 3/4), nested groups, a trailing explicit ` * n`. -/
+theorem C10_preprocess_group_partial (f : F) (hf : f.group1) (hs : f.spAll SpeciesShape) :
+    preprocess (render f) = renderExplicit f :=
+  preprocess_group1 f hf hs
+
+/-- TEXT level, unconditional, SHORT notation, one parenthesised group with an optional count
+    (`(OH)2`): `Substance(text)` through the whole modelled pipeline — four preprocess scanners,
+    tokenizer, `OperatorPar` scan and nested solve, par/mul/add passes, `Composite` operations — has
+    exactly the expanded counts. -/
+theorem C10_counts_text_group_partial (valid : Str → Bool) (f : F) (hwf : f.wf = true) (hf : f.group1)
+    (hs : f.spAll fun s => SpeciesShape s ∧ valid s = true) :
+    substanceOf valid (render f) = some ((expand f).map fun kn => (kn.1, (kn.2 : Rat))) := by
+  have hsh : f.spAll SpeciesShape := spAll_mono (fun s h => h.1) f hs
+  have hok : f.spAll (SpeciesOK valid) :=
+    spAll_mono (fun s h => speciesOK_of_text valid s (speciesText_of_shape s h.1) h.2) f hs
+  refine C10_counts_text_partial valid f hwf hok (preprocess_group1 f hf hsh) ?_
+  cases f with
+  | group g => simp [render]
+  | count f' n =>
+    cases f' with
+    | group g => simp [render]
+    | _ => exact absurd hf (by simp [F.group1])
+  | _ => exact absurd hf (by simp [F.group1])
+
+/-- Further proved fragment of `C10_preprocess_statement`, the usual way groups occur in chemical
+    formulas: a parenthesis-free formula (species, counts, any blanks, merged capital runs,
+    explicit ` + `), then ANY number of blanks (also none), then one parenthesised
+    parenthesis-free group without or with a count — `Ca(OH)2`, `Al2(SO4)3`, `Mg (NO3)2`,
+    `Na{23} Cl (O H)12`.  Pass 1 is followed as a counted sequence of single substitutions: all
+    substitutions left of the `(` happen first, then those inside the group, none across the
+    parentheses; pass 2 rewrites the counts on both sides; pass 3 turns `X(` / `X  (` into
+    `X + (` (its look-behind run starts inside the last species/count); pass 4 turns `)n` into
+    `) * n`.  Still missing: text after a group (`)n X`, `)n (`), several groups, nested groups,
+    an explicit ` + ` directly before `(`, a trailing explicit ` * n`. -/
+theorem C10_preprocess_chain_group_partial (f : F) (hf : f.chainGroup) (hs : f.spAll SpeciesShape) :
+    preprocess (render f) = renderExplicit f :=
+  preprocess_chainGroup f hf hs
+
+/-- TEXT level, unconditional, SHORT notation: formulas of the form chain + group (`Ca(OH)2`,
+    `Al2 (SO4)3`) — `Substance(text)` through the whole modelled pipeline has exactly the
+    expanded counts. -/
+theorem C10_counts_text_chain_group_partial (valid : Str → Bool) (f : F) (hwf : f.wf = true)
+    (hf : f.chainGroup) (hs : f.spAll fun s => SpeciesShape s ∧ valid s = true) :
+    substanceOf valid (render f) = some ((expand f).map fun kn => (kn.1, (kn.2 : Rat))) := by
+  have hsh : f.spAll SpeciesShape := spAll_mono (fun s h => h.1) f hs
+  have hok : f.spAll (SpeciesOK valid) :=
+    spAll_mono (fun s h => speciesOK_of_text valid s (speciesText_of_shape s h.1) h.2) f hs
+  exact C10_counts_text_partial valid f hwf hok (preprocess_chainGroup f hf hsh)
+    (render_chainGroup_ne_nil f hf hsh)
+
+/-- Largest proved fragment of `C10_preprocess_statement` with parentheses: a SEQUENCE of units
+    `u₁ ␣* u₂ ␣* … uₙ` (`F.units`, right-nested juxtapositions), each unit a parenthesis-free
+    formula (species, counts, any blanks, merged capital runs, explicit ` + `) or a parenthesised
+    parenthesis-free group without or with a count, separated by any number of blanks — also none:
+    `(OH)2(CH3)3`, `Ca(OH)2 (H2O)6`, `(NH4)2SO4`, `(CH3)3COH`; `K4 (Fe (CN)6)`-like nesting excluded.
+    All four passes on the whole text: pass 1 as a counted sequence of single substitutions, unit
+    by unit from the left, never across a parenthesis; pass 2 per unit; pass 3 rewrites `X␣*(` and
+    `)n␣*(` into `… + (`, and nothing else (its look-ahead from inside a group's last word runs over
+    `)n` and the blanks, and for `)nX` the look-behind word spans `)n` and the first species of
+    `X`); pass 4 rewrites `)n + (` into `) * n + (` and `)n␣*X` into `) * n + X` (its look-ahead
+    run `[^+*)\s]*` ends inside the next unit).
+    Units may also be joined by an explicit ` + ` (`(OH)2 + Na`, `Na{23} + (OH)2`).
+    Still missing for the full statement: nested groups, a trailing explicit ` * n`
+    (other AST shapes of the same texts: `C10_preprocess_units_tree_partial`). -/
+theorem C10_preprocess_units_partial (f : F) (hf : f.units) (hs : f.spAll SpeciesShape) :
+    preprocess (render f) = renderExplicit f :=
+  (preprocess_units f hf hs).1
+
+/-- TEXT level, unconditional, SHORT notation, sequences of parenthesis-free units and
+    parenthesised groups with counts: `Substance(text)` through the whole modelled pipeline has
+    exactly the expanded counts. -/
+theorem C10_counts_text_units_partial (valid : Str → Bool) (f : F) (hwf : f.wf = true)
+    (hf : f.units) (hs : f.spAll fun s => SpeciesShape s ∧ valid s = true) :
+    substanceOf valid (render f) = some ((expand f).map fun kn => (kn.1, (kn.2 : Rat))) := by
+  have hsh : f.spAll SpeciesShape := spAll_mono (fun s h => h.1) f hs
+  have hok : f.spAll (SpeciesOK valid) :=
+    spAll_mono (fun s h => speciesOK_of_text valid s (speciesText_of_shape s h.1) h.2) f hs
+  exact C10_counts_text_partial valid f hwf hok (preprocess_units f hf hsh).1 (preprocess_units f hf hsh).2
+
+/-- The same for ANY shape of the juxtaposition / ` + ` tree (`F.unitsT`: leaves are units, no two
+    parenthesis-free units meet at a junction), e.g. the left-nested AST `(Ca (OH)2) (H2O)6` of the
+    same text — so within this notation the result does not depend on how the AST is bracketed. -/
+theorem C10_preprocess_units_tree_partial (f : F) (hf : f.unitsT) (hs : f.spAll SpeciesShape) :
+    preprocess (render f) = renderExplicit f :=
+  (preprocess_unitsT f hf hs).1
+
+theorem C10_counts_text_units_tree_partial (valid : Str → Bool) (f : F) (hwf : f.wf = true)
+    (hf : f.unitsT) (hs : f.spAll fun s => SpeciesShape s ∧ valid s = true) :
+    substanceOf valid (render f) = some ((expand f).map fun kn => (kn.1, (kn.2 : Rat))) := by
+  have hsh : f.spAll SpeciesShape := spAll_mono (fun s h => h.1) f hs
+  have hok : f.spAll (SpeciesOK valid) :=
+    spAll_mono (fun s h => speciesOK_of_text valid s (speciesText_of_shape s h.1) h.2) f hs
+  exact C10_counts_text_partial valid f hwf hok (preprocess_unitsT f hf hsh).1 (preprocess_unitsT f hf hsh).2
 
 /-- each species is counted exactly as often as it occurs in the expanded formula, and no
     species is listed twice -/
@@ -291,5 +418,76 @@ def exFlat : F :=
 example : exFlat.flat ∧ String.ofList (render exFlat) = "C2H5OH" ∧
     String.ofList (renderExplicit exFlat) = "C * 2 + H * 5 + O + H" := by
   refine ⟨⟨⟨⟨trivial, trivial⟩, trivial⟩, trivial⟩, by decide +kernel, by decide +kernel⟩
+
+/-- the hypotheses of the group theorems are satisfiable: `(CH3)3`, expansion C3 H9 -/
+def exGroup : F := .count (.group (.seq 0 (.sp ['C']) (.count (.sp ['H']) 3))) 3
+example : exGroup.wf = true ∧ exGroup.group1 ∧ String.ofList (render exGroup) = "(CH3)3" ∧
+    String.ofList (renderExplicit exGroup) = "(C + H * 3) * 3" ∧
+    expand exGroup = [(['C'], 3), (['H'], 9)] :=
+  ⟨by decide, ⟨trivial, trivial⟩, by decide +kernel, by decide +kernel, by decide +kernel⟩
+example : exGroup.spAll (fun s => SpeciesShape s ∧ (fun _ => true) s = true) := by
+  have one : ∀ u : Char, isUp u = true → SpeciesShape [u] :=
+    fun u hu => ⟨[u], [], by simp, Or.inl rfl, Or.inl ⟨u, hu, rfl⟩⟩
+  exact ⟨⟨one 'C' (by decide), rfl⟩, ⟨one 'H' (by decide), rfl⟩⟩
+/-- the hypotheses of the chain + group theorems are satisfiable: `Al2 (SO4)3` ↦ Al2 S3 O12 -/
+def exChainGroup : F :=
+  .seq 1 (.count (.sp ['A', 'l']) 2) (.count (.group (.seq 0 (.sp ['S']) (.count (.sp ['O']) 4))) 3)
+example : exChainGroup.wf = true ∧ exChainGroup.chainGroup ∧
+    String.ofList (render exChainGroup) = "Al2 (SO4)3" ∧
+    String.ofList (renderExplicit exChainGroup) = "Al * 2 + (S + O * 4) * 3" ∧
+    expand exChainGroup = [(['A', 'l'], 2), (['S'], 3), (['O'], 12)] :=
+  ⟨by decide, ⟨trivial, trivial, trivial⟩, by decide +kernel, by decide +kernel, by decide +kernel⟩
+example : exChainGroup.spAll (fun s => SpeciesShape s ∧ (fun _ => true) s = true) := by
+  have one : ∀ u : Char, isUp u = true → SpeciesShape [u] :=
+    fun u hu => ⟨[u], [], by simp, Or.inl rfl, Or.inl ⟨u, hu, rfl⟩⟩
+  exact ⟨⟨⟨['A', 'l'], [], by simp, Or.inl rfl, Or.inr (Or.inl ⟨'A', 'l', by decide, by decide, rfl⟩)⟩, rfl⟩,
+    ⟨one 'S' (by decide), rfl⟩, ⟨one 'O' (by decide), rfl⟩⟩
+/-- the hypotheses of the units theorems are satisfiable: `exF` = `(OH)2(CH3)3`, and
+    `Ca(OH)2 (H2O)6 Cl` ↦ Ca O8 H14 Cl -/
+example : exF.units := Or.inr ⟨Or.inr ⟨trivial, trivial⟩, Or.inr ⟨trivial, trivial⟩, by decide⟩
+def exUnits : F :=
+  .seq 0 (.sp ['C', 'a'])
+    (.seq 1 (.count (.group (.seq 0 (.sp ['O']) (.sp ['H']))) 2)
+      (.seq 1 (.count (.group (.seq 0 (.count (.sp ['H']) 2) (.sp ['O']))) 6) (.sp ['C', 'l'])))
+example : exUnits.wf = true ∧ exUnits.units ∧
+    String.ofList (render exUnits) = "Ca(OH)2 (H2O)6 Cl" ∧
+    String.ofList (renderExplicit exUnits) = "Ca + (O + H) * 2 + (H * 2 + O) * 6 + Cl" ∧
+    expand exUnits = [(['C', 'a'], 1), (['O'], 8), (['H'], 14), (['C', 'l'], 1)] :=
+  ⟨by decide,
+   Or.inr ⟨Or.inl trivial,
+     Or.inr ⟨Or.inr ⟨trivial, trivial⟩,
+       Or.inr ⟨Or.inr ⟨trivial, trivial⟩, Or.inl trivial, by decide⟩, by decide⟩,
+     by decide⟩,
+   by decide +kernel, by decide +kernel, by decide +kernel⟩
+/-- `(NH4)2SO4`: a parenthesis-free unit directly after `)n`, capitals merging into the run `SO` -/
+def exAmm : F :=
+  .seq 0 (.count (.group (.seq 0 (.sp ['N']) (.count (.sp ['H']) 4))) 2)
+    (.seq 0 (.sp ['S']) (.count (.sp ['O']) 4))
+example : exAmm.wf = true ∧ exAmm.units ∧ String.ofList (render exAmm) = "(NH4)2SO4" ∧
+    String.ofList (renderExplicit exAmm) = "(N + H * 4) * 2 + S + O * 4" ∧
+    expand exAmm = [(['N'], 2), (['H'], 8), (['S'], 1), (['O'], 4)] :=
+  ⟨by decide, Or.inr ⟨Or.inr ⟨trivial, trivial⟩, Or.inl ⟨trivial, trivial⟩, by decide⟩,
+   by decide +kernel, by decide +kernel, by decide +kernel⟩
+example : substanceOf (fun _ => true) (render exAmm) =
+    some [(['N'], 2), (['H'], 8), (['S'], 1), (['O'], 4)] := by decide +kernel
+/-- units joined by an explicit ` + `: `Fe + (OH)2 + Na` -/
+def exPlus : F :=
+  .plus (.sp ['F', 'e']) (.plus (.count (.group (.seq 0 (.sp ['O']) (.sp ['H']))) 2) (.sp ['N', 'a']))
+example : exPlus.wf = true ∧ exPlus.units ∧ String.ofList (render exPlus) = "Fe + (OH)2 + Na" ∧
+    String.ofList (renderExplicit exPlus) = "Fe + (O + H) * 2 + Na" :=
+  ⟨by decide, Or.inr ⟨Or.inl trivial, Or.inr ⟨Or.inr ⟨trivial, trivial⟩, Or.inl trivial, by decide⟩, by decide⟩,
+   by decide +kernel, by decide +kernel⟩
+/-- a left-nested AST: `(Ca(OH)2) (H2O)6` -/
+def exTree : F :=
+  .seq 1 (.seq 0 (.sp ['C', 'a']) (.count (.group (.seq 0 (.sp ['O']) (.sp ['H']))) 2))
+    (.count (.group (.seq 0 (.count (.sp ['H']) 2) (.sp ['O']))) 6)
+example : exTree.wf = true ∧ exTree.unitsT ∧ String.ofList (render exTree) = "Ca(OH)2 (H2O)6" :=
+  ⟨by decide, Or.inr ⟨Or.inr ⟨Or.inl trivial, Or.inr ⟨trivial, trivial⟩, by decide⟩,
+    Or.inr ⟨trivial, trivial⟩, by decide⟩, by decide +kernel⟩
+/-- … and evaluating the model pipeline on that text gives the same as the theorem says -/
+example : substanceOf (fun _ => true) (render exUnits) =
+    some [(['C', 'a'], 1), (['O'], 8), (['H'], 14), (['C', 'l'], 1)] := by decide +kernel
+/-- transparency is not vacuous: the capital run `CH` before `)` is matched as in the closed text -/
+example : matchP "CH)3".toList = some (2, ['C', 'H'], [], [], ")3".toList) := by decide +kernel
 
 end SciVerif.C10
